@@ -93,8 +93,9 @@ func runC11(c *Ctx) {
 	c.rule("D3", "Errorf: one %w, first, bound to the target kind after ConvertContextError (ErrUnknown when nil); WrapError: a cancellation/deadline cause replaces the target kind", 3)
 	c.rule("D4", "converters normalise context errors first; a pass-through case for ErrTimeout/ErrCancelled precedes every re-classifying case", 5)
 	c.rule("D6", "deserialisation re-joins every element after the kind into the reason: loop from index 1, step one, unconditional append of the (trimmed) element", 1)
+	c.rule("D9", "serialisation: where the parsed kind is replaced by the error Unwrap() returned, the description of that error is compared with the parsed text and the reason is rewritten accordingly (what the wrapped error already says is not said twice)", 1)
 	c.rule("D7", "writer and reader of the text form agree on the separators: kind/reason (constructors vs deserialiser) and joined errors (marshaller, errors.Join vs deserialiser); every line of a joined error is read, whatever its length", 3)
-	c.rule("D8", "the filesystem converter maps a backend condition to one kind whatever the path: no case that recognises a condition by the error's text (which embeds the caller's path) is evaluated before a case that recognises another condition structurally; the timeout case recognises Timeout() errors (os.IsTimeout)", 2)
+	c.rule("D8", "the filesystem converter maps a backend condition to one kind whatever the path: no case that recognises a condition by the error's text (which embeds the caller's path) is evaluated before a case that recognises another condition structurally; the timeout case recognises Timeout() errors (os.IsTimeout); no converter that goes by the text is applied before the table", 3)
 	c.rule("D5", "every call of commonerrors.Any / None has at least one candidate error", 45)
 
 	p := c.tpkg(cePkg)
@@ -272,6 +273,7 @@ func runC11(c *Ctx) {
 	c.c11Converters()
 	c.c11Vacuous()
 	c.c11Reason()
+	c.c11WrappedReason()
 	c.c11Separators()
 	c.c11ConverterTables()
 }
@@ -716,7 +718,15 @@ func (c *Ctx) c11Converters() {
 			c.check(early == "" && same, "D4", key, c.ipos(passThrough), "normalised first; timeout/cancelled returned unchanged before any other classification",
 				map[bool]string{true: "the pass-through case does not return the context error unchanged", false: "classification " + early + " precedes the pass-through of timeout/cancelled: a context cause can be reclassified"}[early == ""])
 		} else {
-			c.ok("D4", key, c.ipos(norm), "normalised first; no re-classifying case can match a bare ErrTimeout/ErrCancelled sentinel before the default")
+			// without a pass-through, a case that goes by the text of the error can match an error of kind timeout/cancelled
+			textual := ""
+			for _, cl := range classifiers {
+				if calleeFull(&cl.Call) == modPath+"/commonerrors.CorrespondTo" {
+					textual = c.ipos(cl)
+				}
+			}
+			c.check(textual == "", "D4", key, c.ipos(norm), "normalised first; no case goes by the text of the error, so none can match an error of kind timeout/cancelled",
+				"the converter classifies by the text of the error ("+textual+") and has no earlier case that returns ErrTimeout/ErrCancelled unchanged: an error of kind 'cancelled' or 'timeout' whose description contains that text is reclassified")
 		}
 	}
 }
@@ -865,6 +875,49 @@ func (c *Ctx) c11ConverterTables() {
 	} else {
 		c.ok("D8", "filesystem.ConvertFileSystemError/order", c.pos(sw.Pos()), strconv.Itoa(len(clauses))+" cases: every structural case precedes the cases that go by the error's text")
 	}
+	// converters called on the error before the table: none of them goes by the error's text
+	{
+		pre := ""
+		var prePos token.Pos
+		ast.Inspect(fd.Body, func(n ast.Node) bool {
+			ce, ok := n.(*ast.CallExpr)
+			if !ok || ce.Pos() >= sw.Pos() || pre != "" {
+				return true
+			}
+			var id *ast.Ident
+			switch f := ce.Fun.(type) {
+			case *ast.SelectorExpr:
+				id = f.Sel
+			case *ast.Ident:
+				id = f
+			}
+			if id == nil {
+				return true
+			}
+			fo, isF := p.TypesInfo.Uses[id].(*types.Func)
+			if !isF || fo.Pkg() == nil || !strings.HasPrefix(fo.Pkg().Path(), modPath+"/") {
+				return true
+			}
+			q := c.ByPath[fo.Pkg().Path()]
+			if q == nil {
+				return true
+			}
+			gd := funcDecl(q, fo.Name())
+			if gd == nil || gd.Body == nil {
+				return true
+			}
+			ast.Inspect(gd.Body, func(m ast.Node) bool {
+				if ie, ok := m.(*ast.CallExpr); ok && strings.HasSuffix(calleeName(ie), "CorrespondTo") {
+					pre = fo.Pkg().Name() + "." + fo.Name()
+					prePos = ce.Pos()
+				}
+				return true
+			})
+			return true
+		})
+		c.check(pre == "", "D8", "filesystem.ConvertFileSystemError/nothing-textual-before-the-table", c.pos(fd.Pos()), "no converter that goes by the error's text is applied before the structural cases",
+			pre+" is applied to the error at "+c.pos(prePos)+", before the table: it recognises a condition in the error's text, which contains the caller's path — a missing file below a directory named \"not supported\" is reported as 'unsupported', not 'not found'")
+	}
 	// the timeout case recognises errors reporting Timeout() — os.IsTimeout, or a Timeout() call
 	okTimeout := false
 	for _, cl := range clauses {
@@ -926,4 +979,100 @@ func c11RangesOverTail(app *ssa.Call) bool {
 	}
 	walk(elemsOf(app), 6)
 	return found
+}
+
+// c11WrappedReason (D9): ConvertToError composes the text from ErrorType.Error() and Reason. processErrorStrLine fills
+// both from the text; SetWrappedError then replaces ErrorType by what Unwrap() returned — an error whose description is
+// the parsed kind only when it is a bare kind. For New(New(ErrConflict, "inner"), "outer") it is "conflict: inner", and
+// the reason "inner: outer" kept as it is gives "conflict: inner: inner: outer". Decided: the setter consults the
+// description of the error it is given, and a store to Reason depends on a comparison that involves it. Not decided:
+// that the rewritten reason is the right one (string contents).
+func (c *Ctx) c11WrappedReason() {
+	f := c.fn(cePkg, "(*marshallingError).SetWrappedError")
+	if f == nil {
+		return
+	}
+	c.FuncsSeen[fname(f)] = true
+	key := fname(f) + "/reason-follows-the-wrapped-error"
+	if len(f.Params) < 2 {
+		c.violate("D9", key, c.pos(f.Pos()), "SetWrappedError no longer takes the wrapped error")
+		return
+	}
+	errP := f.Params[1]
+	var desc []ssa.Value
+	var reasonStores []*ssa.Store
+	typeStored := false
+	allInstrs(f, func(in ssa.Instruction) {
+		switch x := in.(type) {
+		case *ssa.Call:
+			if x.Call.IsInvoke() && x.Call.Method.Name() == "Error" && resolveValue(x.Call.Value) == ssa.Value(errP) {
+				desc = append(desc, x)
+			}
+		case *ssa.Store:
+			if fa, ok := x.Addr.(*ssa.FieldAddr); ok {
+				if so := structOf(fa.X.Type()); so != nil {
+					switch so.Field(fa.Field).Name() {
+					case "Reason":
+						reasonStores = append(reasonStores, x)
+					case "ErrorType":
+						if resolveValue(x.Val) == ssa.Value(errP) {
+							typeStored = true
+						}
+					}
+				}
+			}
+		}
+	})
+	if !typeStored {
+		c.violate("D9", key, c.pos(f.Pos()), "SetWrappedError no longer stores the wrapped error as the error type")
+		return
+	}
+	good := false
+	for _, st := range reasonStores {
+		// some branch condition that dominates the store is computed from the wrapped error's description
+		for _, b := range f.Blocks {
+			ifi, ok := b.Instrs[len(b.Instrs)-1].(*ssa.If)
+			if !ok || !(edgeDominates(b, 0, st.Block()) || edgeDominates(b, 1, st.Block())) {
+				continue
+			}
+			if c11DependsOn(ifi.Cond, desc, map[ssa.Value]bool{}, 0) {
+				good = true
+			}
+		}
+	}
+	c.check(good && len(desc) > 0, "D9", key, c.pos(f.Pos()), "the reason is rewritten after comparing the wrapped error's description with the parsed text",
+		"SetWrappedError replaces the parsed kind by the wrapped error and leaves the parsed reason as it is: when the wrapped error has a reason of its own (New(New(ErrConflict, \"inner\"), \"outer\"), WrapIfNotCommonError(…, New(ErrNotFound, \"file a\"), \"ctx\"), every element of a join) its description already holds the first elements of the reason, and the serialised text says them twice — the deserialised error has another reason than the original")
+}
+
+// c11DependsOn: v is computed (through calls, conversions, slices, phis, binary operations, element loads) from one of the given values.
+func c11DependsOn(v ssa.Value, from []ssa.Value, seen map[ssa.Value]bool, depth int) bool {
+	if v == nil || seen[v] || depth > 12 {
+		return false
+	}
+	seen[v] = true
+	for _, d := range from {
+		if v == d {
+			return true
+		}
+	}
+	var ops []*ssa.Value
+	if in, ok := v.(ssa.Instruction); ok {
+		ops = in.Operands(ops)
+	}
+	for _, o := range ops {
+		if o != nil && *o != nil && c11DependsOn(*o, from, seen, depth+1) {
+			return true
+		}
+	}
+	if u, ok := v.(*ssa.UnOp); ok && u.Op == token.MUL {
+		if a, isA := u.X.(*ssa.Alloc); isA {
+			st, _ := reachingStores(u, a)
+			for _, sv := range st {
+				if c11DependsOn(sv, from, seen, depth+1) {
+					return true
+				}
+			}
+		}
+	}
+	return false
 }
